@@ -7,6 +7,8 @@ CONSTANTS B = 4
   FixDone = TRUE
   FixDrain = TRUE
   FixHandover = TRUE
+  WriteCalls = FALSE
+  FixFlushAll = TRUE
 SPECIFICATION Spec
 INVARIANTS C12_Log C12_NothingLost
 PROPERTY Finishes
